@@ -1502,9 +1502,9 @@ class System:
         >>> sys.set_comp_phases("MCU", {"sleep":1e-6, "transmit":0.15, "move":0.085})
 
         """
-        cidx = self._get_index(name)
-        if cidx == -1:
+        if name not in self._g.attrs["nodes"]:
             raise ValueError("Component name does not exist!")
+        cidx = self._g.attrs["nodes"][name]
         if not isinstance(phase_conf, dict) and not isinstance(phase_conf, list):
             raise ValueError("phase_conf must be a dict or list!")
         if isinstance(self._g[cidx], RLoss) or isinstance(self._g[cidx], VLoss):
